@@ -287,6 +287,22 @@ def run(ctx: Ctx) -> None:
     closes = any("closed" in s for s in states)
     ctx.ob("C19.R3", disc, "disconnect() closes the installed connection", closes, "")
     ctx.ob("C19.R3", disc, "after disconnect() closed the connection it is no longer installed", not bad, "disconnect() before the session was established leaves the closed connection installed: every later start_connection() is refused")
+    # ... and nothing between the close and the forgetting can raise by itself (a diagnostic that reads state which only
+    # an established connection has, say): the exception would leave with the closed connection still installed
+    from ..totality import risky
+
+    closers_d = [n for n in gd.reachable() if any(any(f.cls is conn and f.name in ("disconnect", "force_disconnect") for f in res.callees(disc, c).funcs) for c in node_calls(n))]
+    clears_d = {n for n in gd.reachable() if n.kind == "stmt" and isinstance(n.ast, ast.Assign) and any(norm(t) == "self._connection" for t in n.ast.targets) and is_none(n.ast.value)}
+    between: list[ast.AST] = []
+    for cn_ in closers_d:
+        for l_, s_ in cn_.succ:
+            if l_ == "exc":
+                continue
+            for m in walk(gd, {}, lambda n: None, start=s_, blocked=clears_d):
+                if m.ast is not None and m.kind in ("stmt", "cond") and m not in closers_d and m.ast not in between:
+                    between.append(m.ast)
+    rk = risky(ctx, res, disc, between)
+    ctx.ob("C19.R3", disc, "nothing between closing the connection and forgetting it can raise by itself", not rk, f"{rk[:3]}: disconnect() would fail after the close and leave the closed connection installed - every later start_connection() is refused")
     allowed = {init.key, start.key, hook.key, wrapper.key, disc.key}
     for fn, st, val in writes:
         ctx.ob("C19.R3", fn, st, fn.key in allowed, f"unexpected writer of APIClient._connection: {fn.qualname}")
